@@ -111,6 +111,10 @@ class C08(PropBase):
                     x = copy.deepcopy(v)
                 else:
                     x = _junk(rng)
+                if rng.random() < 0.12 and any(mm["k"] in ("list", "dict") for mm in members):
+                    # a one-shot iterator: every member is offered the whole of it (a member that reads some of it
+                    # before refusing does not leave the next one the remainder)
+                    x = {"$iter": rng.choice([["1", "2"], [1, 2, 3], [["a", 1], ["b", 2]], ["x"], []])}
                 step.update(op="unmarshal", x=x)
             if "exhaust_scan" in sw and rng.random() < 0.35:
                 # first from every stack depth at which the call cannot complete: with next to no stack left
